@@ -311,12 +311,12 @@ func report(o opts, s *prep.Scratch, m *merged, t0 time.Time) int {
 		"world_use":           st.WorldUse,
 		"probes":              st.Probes,
 		"components":          realStub(),
-		"instrumented_sites":  map[string]any{"tree_map_ranges": s.RepoRep.MapSites, "runtime_map_ranges": s.HelpersRep.MapSites, "tree_world_calls": s.RepoRep.WorldCalls, "uncontrolled_world_calls": s.RepoRep.Uncontrolled,
+		"instrumented_sites": map[string]any{"tree_map_ranges": s.RepoRep.MapSites, "runtime_map_ranges": s.HelpersRep.MapSites, "tree_world_calls": s.RepoRep.WorldCalls, "uncontrolled_world_calls": s.RepoRep.Uncontrolled,
 			"uncontrolled_go_statements_in_tree": s.RepoRep.GoStmts},
-		"known_findings_hit":  known,
-		"max_build_ms":        st.MaxMs,
-		"cases_requested":     engine1Tiers[o.prop][o.tier].cases,
-		"exhaustive":          false,
+		"known_findings_hit": known,
+		"max_build_ms":       st.MaxMs,
+		"cases_requested":    engine1Tiers[o.prop][o.tier].cases,
+		"exhaustive":         false,
 	}
 	for k, v := range extraCoverage[o.prop] {
 		cov[k] = v
